@@ -12,6 +12,14 @@ TRUST = ('Trusted base: rustc nightly THIR/MIR for this source (same cfgs as the
          'the evidence file.')
 
 CHECKS = {
+    'C17': {
+        'technique': 'wiring checks: argument/field provenance of the timer set-up calls, must-reach on the registration success path, select-arm addressing, typestate of the notifier slot (assignment only when empty or after take)',
+        'level': ('Decides only the wiring that is necessary for the keep-alive property: token echoed, waker armed on every '
+                  'registration with ping_timeout, every PING arms a pong_timeout deadline reporting to this session, expiry ends the '
+                  'session, PONG fires the notifier, and a pending deadline is not silently cancelled (violated on the pinned tree: '
+                  'known finding). Timing bounds ("no later than", "never while answering") are NOT decided.'),
+        'note': TRUST + ' Timing and scheduler fairness are runtime quantities (declined).',
+    },
     'C13': {
         'technique': 'exhaustive error-variant -> reply mapping by path-condition reachability, table agreement (verb literals / CommandId / Command / index / counter array / HELP), validator census per Command field, template decoding of every format string, idiom classification of the trailing-parameter split with a constructive counterexample',
         'level': ('Decides the structural necessary conditions of the parsing/framing property: total pre-execution error mapping '
